@@ -122,6 +122,7 @@ pub fn case(data: &[u8]) -> Case {
             27 => Step::ArmTracePanic { k: c.u8() % 24 },
             28 => Step::NewArena { preset: c.u8(), fallible: c.bool(), outcome: outcome(c.u8()), ops: ops(&mut c, false) },
             29 => Step::DropArena { arena: c.u8() },
+            30 => Step::ArmDropPanic { k: c.u8() % 24 },
             _ => Step::Settle { arena: c.u8() },
         };
         steps.push(st);
